@@ -437,6 +437,9 @@ def check_homogeneous(ck, F, S):
     check_scope_lookup(ck, F, S)
     check_tree_lookup(ck, F)
     check_homogeneous_lookup(ck, F, S)
+    import c12 as _c12
+    from symex import Sym as _Sym
+    _c12.positions_rule(ck, F, _Sym(F, opaque=contracts.default_opaque(F), max_depth=64), prefix='C07')
     R = ck.rule('C07.singleton-sets', 'parameters, enumerators, bases and exception parameters are their own master, their '
                 'decl-set is the singleton of themselves, and their overload set selects them exactly for their own type', floor=4)
     cases = [
